@@ -254,6 +254,12 @@ def call_spec(name, w, op):
         a, b = sorted([(op * 37) % n, (op * 91 + n // 2) % n])
         start = [None, a / fs, 0.0][op % 3]
         stop = [b / fs, None, (n - 1) / fs][op % 3] if op % 5 else None
+        if op % 4 == 3:
+            # a window that starts a little after t = 0 and still encloses every cycle of the table
+            side_cols = [c_ for c_ in t_any.columns if c_.startswith('sample_last_') and 'zerox' not in c_]
+            first_side = int(t_any[side_cols[0]].min()) if side_cols and len(t_any) else 0
+            if first_side >= 2:
+                start, stop = (first_side // 2) / fs, None
         return limit_df, [('df', t_any), ('fs', fs)], dict(start=start, stop=stop, reset_indices=bool(op % 2)), None
     if name == 'epoch_df' and t_any is not None:
         n = len(w.sig)
